@@ -283,6 +283,8 @@ pub struct RunOut {
     pub buffer_growths: usize,
     /// the real responses, kept alive by the caller if it wants (C02 Miri stage keeps frames alive)
     pub responses_kept: usize,
+    /// results of the extra receive calls made after the terminal item (see `AFTER_TERMINAL`)
+    pub after_terminal: Vec<Item>,
 }
 
 #[derive(Clone, Copy, Debug, PartialEq, Eq)]
@@ -319,10 +321,16 @@ thread_local! {
     /// receive) instead of `receive()`. Set by the caller right before `run` (kept out of `RunSpec` so
     /// that the many existing construction sites stay unchanged).
     pub static VIA_COMMAND: std::cell::Cell<usize> = const { std::cell::Cell::new(0) };
+    /// After the terminal item (error or clean end) of the next run, call `receive()` this many more times and
+    /// record what comes back in `RunOut::after_terminal` (an application that logs an error and receives again).
+    /// The hook monitor is frozen for these calls: nothing is specified about them except that they return.
+    pub static AFTER_TERMINAL: std::cell::Cell<usize> = const { std::cell::Cell::new(0) };
 }
 
 /// Hook monitor state for one run.
 struct HookMon {
+    frozen: bool,
+    fed_at_freeze: Option<usize>,
     probes: usize,
     violations: Vec<String>,
     buffered: Option<usize>,
@@ -335,6 +343,9 @@ struct HookMon {
 impl HookMon {
     fn on(&mut self, p: mpd_protocol::verif_hooks::Probe) {
         use mpd_protocol::verif_hooks::Probe;
+        if self.frozen {
+            return;
+        }
         self.probes += 1;
         match p {
             Probe::Parsed { before, after, .. } => {
@@ -390,12 +401,13 @@ impl HookMon {
 /// Run one connection over one stream. Never panics itself: library panics become `Item::Panic`.
 pub fn run(spec: &RunSpec<'_>) -> RunOut {
     let stats = Rc::new(RefCell::new(ReadStats::default()));
-    let mon = Rc::new(RefCell::new(HookMon { probes: 0, violations: vec![], buffered: None, consumed: 0, read_total: 0, last_buf_len: None, growths: 0 }));
+    let mon = Rc::new(RefCell::new(HookMon { frozen: false, fed_at_freeze: None, probes: 0, violations: vec![], buffered: None, consumed: 0, read_total: 0, last_buf_len: None, growths: 0 }));
     {
         let m = mon.clone();
         mpd_protocol::verif_hooks::set_sink(Some(Box::new(move |p| m.borrow_mut().on(p))));
     }
     let mut out = RunOut::default();
+    let after_terminal = AFTER_TERMINAL.with(|v| v.replace(0));
     let core = Core::new(spec.greeting, spec.body, spec.seg, spec.end.clone(), stats.clone());
     let reset_call = |stats: &Rc<RefCell<ReadStats>>| {
         let mut s = stats.borrow_mut();
@@ -445,6 +457,23 @@ pub fn run(spec: &RunSpec<'_>) -> RunOut {
                         let term = item.is_terminal();
                         out.items.push(item);
                         if term || out.items.len() >= spec.max_responses {
+                            if term {
+                                {
+                                    let fed = stats.borrow().fed;
+                                    let mut m = mon.borrow_mut();
+                                    m.frozen = true;
+                                    m.fed_at_freeze = Some(fed);
+                                }
+                                for _ in 0..after_terminal {
+                                    reset_call(&stats);
+                                    out.after_terminal.push(match panics::catch(|| conn.receive()) {
+                                        Err(p) => Item::Panic(p.0),
+                                        Ok(Ok(Some(resp))) => Item::Resp(response_to_d(&resp)),
+                                        Ok(Ok(None)) => Item::CleanEnd,
+                                        Ok(Err(e)) => err_to_item(&e),
+                                    });
+                                }
+                            }
                             break;
                         }
                     }
@@ -500,6 +529,23 @@ pub fn run(spec: &RunSpec<'_>) -> RunOut {
                         let term = item.is_terminal();
                         out.items.push(item);
                         if term || out.items.len() >= spec.max_responses {
+                            if term {
+                                {
+                                    let fed = stats.borrow().fed;
+                                    let mut m = mon.borrow_mut();
+                                    m.frozen = true;
+                                    m.fed_at_freeze = Some(fed);
+                                }
+                                for _ in 0..after_terminal {
+                                    reset_call(&stats);
+                                    out.after_terminal.push(match panics::catch(|| spin_block_on(conn.receive())) {
+                                        Err(p) => Item::Panic(p.0),
+                                        Ok(Ok(Some(resp))) => Item::Resp(response_to_d(&resp)),
+                                        Ok(Ok(None)) => Item::CleanEnd,
+                                        Ok(Err(e)) => err_to_item(&e),
+                                    });
+                                }
+                            }
                             break;
                         }
                     }
@@ -523,7 +569,7 @@ pub fn run(spec: &RunSpec<'_>) -> RunOut {
     let connected = out.version.is_some();
     let panicked = out.items.iter().any(|i| matches!(i, Item::Panic(_)));
     if connected && !panicked && m.probes > 0 {
-        let fed_body = st.fed.saturating_sub(spec.greeting.len());
+        let fed_body = m.fed_at_freeze.unwrap_or(st.fed).saturating_sub(spec.greeting.len());
         if m.read_total != fed_body {
             let msg = format!("reads accounted by the connection {} != bytes handed out by the transport {}", m.read_total, fed_body);
             m.v(msg);
